@@ -216,6 +216,23 @@ def r2_payload_sites(ctx):
         upd = [c for c in calls_in(gs.node) if isinstance(c.func, ast.Attribute) and c.func.attr == 'update' and isinstance(c.func.value, ast.Name) and c.func.value.id == hn]
         last = gs.node.body[-1]
         oks = hn is not None and 'hashlib.sha256()' in src(gs.node.body[0]) and bool(upd) and isinstance(last, ast.Return) and src(last.value) == f'{hn}.hexdigest()'
+    if gs is not None:
+        loops = [l for l in walk_local(gs.node) if isinstance(l, (ast.For, ast.While))]
+        whole = False
+        for l in loops:
+            exits = [x for x in walk_local(l) if isinstance(x, (ast.Break, ast.Return)) and x is not l]
+            if isinstance(l, ast.For) and isinstance(l.iter, ast.Call) and dotted(l.iter.func) == 'iter' and len(l.iter.args) == 2 and isinstance(l.iter.args[1], ast.Constant) and l.iter.args[1].value == b'' and not exits:
+                whole = True
+            if isinstance(l, ast.While) and isinstance(l.test, ast.NamedExpr) and not exits:
+                whole = True
+        ctx.check(
+            whole,
+            'C16.R2',
+            f'{mod.rel}|stream-digest-reads-to-eof',
+            loc(gs, gs.node),
+            '_get_stream_hexdigest hashes until read() returns b\'\' (a short read does not end the loop)',
+            '_get_stream_hexdigest can stop before the end of the stream (early exit / other sentinel than an empty read): for streams that return short reads the signed payload hash covers only a prefix of the body that is sent',
+        )
     ctx.check(oks, 'C16.R2', f'{mod.rel}|_get_stream_hexdigest', loc(gs, gs.node) if gs else mod.rel, '_get_stream_hexdigest = sha256 over all chunks of the stream', '_get_stream_hexdigest changed')
 
 
